@@ -89,8 +89,8 @@ func maxIntValue(v ssa.Value, depth int) (int64, bool) {
 }
 
 func c08(p *model.Prog, r *report.Result) {
-	r.Explanation = "Decides writer/reader agreement conditions of the RTMP chunk stream that are visible in the code's constants and comparisons: the class of the timestamp value 0xFFFFFF (extended field present) is the same in calcHeader and in ChunkComposer.RunLoop (R1); the longest chunk header calcHeader can emit fits the per-chunk allowance used to size the output buffer (R2); the chunk-stream-id forms the writer selects are exactly the ranges the reader's 1- and 2-byte forms decode (R3)."
-	r.NotDecided = []string{"the round trip itself for all sizes and chunkings (a function of values)", "delta accumulation over fmt1/fmt2 chains", "aggregate message splitting", "Set Chunk Size changes mid-stream"}
+	r.Explanation = "Decides writer/reader agreement conditions of the RTMP chunk stream that are visible in the code's constants and comparisons: the class of the timestamp value 0xFFFFFF (extended field present) is the same in calcHeader and in ChunkComposer.RunLoop (R1); the longest chunk header calcHeader can emit fits the per-chunk allowance used to size the output buffer (R2); the chunk-stream-id forms the writer selects are exactly the ranges the reader's 1- and 2-byte forms decode (R3); field layouts agree (R4); first header byte composition, absolute/delta flag typestate, aggregate payload and base time stamp (R5-R9); the chunk read size is the remaining part of the message or the peer's chunk size, so a Set Chunk Size between two chunks of a message cannot mis-size the continuation (R10); a zero-length message still yields a header-only chunk and every header is followed by its payload copy (R11, R12); the format bits come from the first basic-header byte and the remembered delta is never reset (R13, R14)."
+	r.NotDecided = []string{"the round trip itself for all sizes and chunkings (a function of values)", "delta accumulation over fmt1/fmt2 chains beyond the flag typestate", "aggregate message splitting beyond R7/R9", "Set Chunk Size changes mid-stream beyond R10 (e.g. a shrinking chunk size)"}
 	maxTs, _ := constant.Int64Val(p.Const("pkg/rtmp", "maxTimestampInMessageHeader").Val())
 	calc := p.Func("pkg/rtmp", "calcHeader")
 	runLoop := p.Method("pkg/rtmp", "ChunkComposer", "RunLoop")
